@@ -6,7 +6,7 @@ use std::collections::HashMap;
 
 pub fn entries() -> Vec<(&'static str, crate::EntryFn)> { vec![("quake", entry_quake)] }
 
-fn show_player_one(p: &quake::one::Player) -> String {
+pub fn show_player_one(p: &quake::one::Player) -> String {
     format!(
         "({})",
         [
@@ -23,7 +23,7 @@ fn show_player_one(p: &quake::one::Player) -> String {
     )
 }
 
-fn show_player_two(p: &quake::two::Player) -> String {
+pub fn show_player_two(p: &quake::two::Player) -> String {
     format!(
         "({})",
         [
@@ -42,7 +42,7 @@ fn show_map(m: &HashMap<String, String>) -> String {
     show_list(&kv, |(k, v)| format!("{}={}", show_str(k), show_str(v)))
 }
 
-fn show_response<P>(r: &Response<P>, show_player: impl Fn(&P) -> String) -> String {
+pub fn show_response<P>(r: &Response<P>, show_player: impl Fn(&P) -> String) -> String {
     format!(
         "Q{{{}}} P{} U{}",
         [
